@@ -348,9 +348,31 @@ func startChild(scratch string, id int, o childOpts) func() childRes {
 	var stderr bytes.Buffer
 	cmd.Stderr = &stderr
 	cmd.Stdout = io.Discard
+	// every build runs in a working directory of its own: the cache must never create anything relative to it
+	cwd := filepath.Join(scratch, fmt.Sprintf("cwd-%d", id))
+	os.MkdirAll(cwd, 0o755)
+	cmd.Dir = cwd
 	if err := cmd.Start(); err != nil {
 		return func() childRes { return childRes{Status: "fail start: " + err.Error()} }
 	}
+	return startChildCollect(cmd, &stderr, o, out, tr, fg)
+}
+
+// cacheCwdTokens: `U=cwd:<name>` for everything the child processes of a case left in their working directories
+func cacheCwdTokens(scratch string) []string {
+	var toks []string
+	dirs, _ := filepath.Glob(filepath.Join(scratch, "cwd-*"))
+	sort.Strings(dirs)
+	for _, d := range dirs {
+		for _, f := range cacheListCwd(d) {
+			toks = append(toks, "U=cwd:"+f)
+		}
+	}
+	return toks
+}
+
+func startChildCollect(cmd *exec.Cmd, stderrp *bytes.Buffer, o childOpts, out, tr, fg string) func() childRes {
+	stderr := stderrp
 	done := make(chan error, 1)
 	go func() { done <- cmd.Wait() }()
 	deadline := time.After(12 * time.Second) // from the start of the child
